@@ -213,24 +213,55 @@ def make_inv(cfg):
     def fn():
         from distributed_shampoo.shampoo_types import DISTRIBUTOR
 
-        A = H.OptRun(cfg)
+        wrap = None
+        if cfg.get("strided"):
+            # the parameter is a transposed (non-row-major) view: W0 holds the values of the underlying row-major tensor
+            wrap = lambda p, i: type(p)(p.detach().T) if len(cfg["params"][i]) == 2 else p  # noqa: E731
+        A = H.OptRun(cfg, param_wrap=wrap)
         info = A._sig("blocking-changes-the-math")
         blocks = A.opt._per_group_state_lists[0][DISTRIBUTOR].local_blocked_params
         bshapes = [tuple(b.shape) for b in blocks]
+        # which element of which parameter each block entry is: the initial values are distinct variables, so an entry is identified by its term
+        where = {}
+        for pi, p in enumerate(A.params):
+            arr = H.read(p)
+            for idx in (np.ndindex(*arr.shape) if arr.ndim else [()]):
+                where[arr[idx].fp if hasattr(arr[idx], "fp") else float(arr[idx])] = (pi, idx)
+        bmap = []
+        for b in blocks:
+            a = H.read(b)
+            m = np.empty(a.shape, dtype=object)
+            for idx in (np.ndindex(*a.shape) if a.ndim else [()]):
+                key = a[idx].fp if hasattr(a[idx], "fp") else float(a[idx])
+                if key not in where:
+                    symx.prove("every block entry is an element of a parameter", False, info)
+                m[idx] = where[key]
+            bmap.append(m)
+        for pi, p in enumerate(A.params):
+            symx.prove("parameters stay the tensors handed to the optimizer (blocks are views, so writes reach them)", A.opt.param_groups[0]["params"][pi] is p, info)
         cfgB = dict(cfg)
         cfgB.update(params=bshapes, mpd=10**6, merge=False, groups=None)
         B = H.OptRun(cfgB, init_values=[H.read(b) for b in blocks], hp=A.hp)
         for k in range(1, T + 1):
-            g = [H.arr_var(f"g{k}p{i}", tuple(s)) for i, s in enumerate(cfg["params"])]
+            g = [H.arr_var(f"g{k}p{i}", tuple(H.read(p).shape)) for i, p in enumerate(A.params)]
             A.set_grads(g)
-            gb = [H.read(x) for x in A.opt._per_group_state_lists[0][DISTRIBUTOR].merge_and_block_gradients()]
+            # the blocks' own gradients, taken element by element from the map above -- NOT from the implementation's gradient blocking
+            gb = []
+            for m in bmap:
+                x = np.empty(m.shape, dtype=object)
+                for idx in (np.ndindex(*m.shape) if m.ndim else [()]):
+                    pi, j = m[idx]
+                    x[idx] = g[pi][j]
+                gb.append(x)
             B.set_grads(gb)
             ea, eb = H.guarded_step(A), H.guarded_step(B)
             symx.prove("both runs step without raising", ea is None and eb is None, info)
-            for bi, (blk, pb) in enumerate(zip(blocks, B.params)):
-                a, b = H.read(blk), H.read(pb)
-                for idx in (np.ndindex(*a.shape) if a.ndim else [()]):
-                    symx.prove_equal(f"blocked tensor == its blocks as separate parameters (block {bi}{list(idx)} step {k})", a[idx], b[idx], info)
+            for bi, (m, pb) in enumerate(zip(bmap, B.params)):
+                b = H.read(pb)
+                for idx in (np.ndindex(*b.shape) if b.ndim else [()]):
+                    pi, j = m[idx]
+                    # read through the PARAMETER (not through the block): an update that lands in a private copy of the block is a violation
+                    symx.prove_equal(f"blocked tensor == its blocks as separate parameters (block {bi}{list(idx)} step {k})", H.read(A.params[pi])[j], b[idx], info)
             # per-block state
             sa = [x for pi in range(len(A.params)) for x in A.snapshot_param(pi) if x[0] not in ("param", "state/step")]
             sb = [x for pi in range(len(B.params)) for x in B.snapshot_param(pi) if x[0] not in ("param", "state/step")]
@@ -250,8 +281,14 @@ def jobs_for(tier):
     for kw in (dict(params=[(2, 3)], mpd=2, merge=False, graft="adam", nesterov=True, bias_corr=True, decoupled=True),
                dict(params=[(2, 1, 2)], mpd=2, merge=True, graft="sgd", nesterov=False, bias_corr=True, decoupled=False),
                dict(params=[(4,), (2, 2)], mpd=2, merge=True, graft=None, nesterov=False, bias_corr=False, decoupled=True),
-               dict(params=[(2, 2, 2)], mpd=2, merge=True, graft="rmsprop", nesterov=False, bias_corr=True, decoupled=True, fixed=dict(mom=0))):
-        cfg = c01.base_cfg(tier=tier, assume_generic=True, pf=1, sps=2, T=2, **kw)
+               dict(params=[(2, 2, 2)], mpd=2, merge=True, graft="rmsprop", nesterov=False, bias_corr=True, decoupled=True, fixed=dict(mom=0)),
+               # a 2 x 2 grid of blocks (split along two dimensions): block numbering of parameters and gradients must agree
+               dict(params=[(4, 4)], mpd=2, merge=False, graft=None, nesterov=False, bias_corr=True, decoupled=True, fixed=dict(mom=0, wd=0), T=1),
+               dict(params=[(3, 4)], mpd=2, merge=False, graft="sgd", nesterov=False, bias_corr=True, decoupled=True, fixed=dict(mom=0), T=1),
+               # a parameter in a non-row-major layout (transposed view), dims too large to merge / merging off
+               dict(params=[(3, 2)], mpd=2, merge=False, graft="adam", nesterov=False, bias_corr=True, decoupled=True, fixed=dict(mom=0), strided=True),
+               dict(params=[(2, 3)], mpd=4, merge=True, graft=None, nesterov=False, bias_corr=True, decoupled=True, fixed=dict(mom=0, wd=0), strided=True)):
+        cfg = c01.base_cfg(**dict(dict(tier=tier, assume_generic=True, pf=1, sps=2, T=2), **kw))
         ij.append(dict(id=f"i{n}", module="checks.c05", factory="make_inv", cfg=cfg))
         n += 1
     if tier == "thorough":
